@@ -61,6 +61,23 @@ def make(sid, specs, allsym=16, timeout=240, full=0):
     return Ob("C14:w:" + sid, body, timeout=timeout, tags={"part": "written"}, text=" + ".join(s.text() for s in specs))
 
 
+def make_repeat(sid, spec):
+    """the same file object written twice into one image and the list written to a second image: all four copies whole"""
+    def body(ctx):
+        install_m7()
+        fl, descs = F.build(ctx, [spec], allsym_limit=8)
+        ok = True
+        for _round in range(2):
+            cas = CassetteFile()
+            cas.add_files([fl[0], fl[0]])
+            if not wellformed(cas.get_buffer(), [descs[0], descs[0]]):
+                ok = False
+        if ok:
+            return True, {"file": spec.text()}
+        return ctx.known(PID, {"part": "repeat"}, {"length": spec.length}), {"file": spec.text()}
+    return Ob("C14:repeat:" + sid, body, timeout=300, tags={"part": "repeat"}, text="%s written twice, to two images" % spec.text())
+
+
 def obligations(tier, seed):
     S = F.Spec
     obs = []
@@ -77,6 +94,8 @@ def obligations(tier, seed):
     obs.append(make("two:256+1", [S("ONE", 256, "basic"), S("two", 1, "ascii")], full=1))
     obs.append(make("three:1+510+2", [S("A", 1, "ml"), S("B", 510, "data"), S("C", 2, "sym")], full=2))
     obs.append(make("three:0mid", [S("A", 4, "ml"), S("E", 0, "ml"), S("C", 2, "ml")]))
+    obs.append(make_repeat("600", S("GAME", 600, "ml")))
+    obs.append(make_repeat("510", S("TWOBLK", 510, "sym")))
     if full:
         obs.append(make("allsym:765", [S("BIG", 765, "ml", allsym=765)], timeout=900))
     return obs
